@@ -28,7 +28,9 @@ var docNumbers = []float64{0, 1, -1, 2, 3, 10, 0.5, -2.5, 1e15, 7}
 // digit strings around 2^53, 2^63 and 2^64; numbers that print in exponent form, need 17
 // significant digits, sit at the 2^53/2^63 boundaries or at the ends of the float64 range.
 var hardDocStrings = []string{"\ufffd", "\ufffdabc", "\u007f", "\u0080", "\u07ff", "\u0800", "\uffff", "\U00010000", "\U0010ffff", "\u0301a", "ǆ", "ǅa", "ა", "ß", "İ", "\u0085", "\u00a0x", "\ufeffa", "a\u0000b",
-	"9223372036854775807", "9223372036854775808", "9999999999999999999", "18446744073709551616", "9007199254740993", "0.23333333333333334", "-0", "1e400", "-1e-400", "1E+2", "12345678901234567890123", "é\u0301𝄞", "null", "true", "[]", "{}", "\"q\""}
+	"9223372036854775807", "9223372036854775808", "9999999999999999999", "18446744073709551616", "9007199254740993", "0.23333333333333334", "-0", "1e400", "-1e-400", "1E+2", "12345678901234567890123", "é\u0301𝄞", "null", "true", "[]", "{}", "\"q\"",
+	// text that looks like an escape sequence or a markup entity (serialisers that post-process their output)
+	"\\u003c", "\\u003e\\u0026", "a\\nb", "\\\\", "\\\"", "\\u0041", "&lt;&amp;", "\\x41", "%41", "\\'", "\\`", "<>&", "</script>", "\\u2028"}
 var hardDocNumbers = []float64{1e21, -1.5e300, 1e308, -1e308, 1.7976931348623157e308, 5e-324, 1e-7, 1.2345678901234568e-10, 6.02214076e23, 9007199254740992, 9007199254740993, 9223372036854775807, 9223372036854775808, 18446744073709551616,
 	0.1, 0.23333333333333334, 1.4000000000000001, 1e20, 123456789012345680000, 1e-6, 0.000001234, 999999999999999900000, -1e21, 4.35, 0.30000000000000004, 2.5e-8, 1e16, 12345678.9}
 
